@@ -337,15 +337,23 @@ func runC04(r *mc.Run) {
 	if r.Thorough() {
 		bound = 3
 	}
-	r.Explore("tcb-worlds", bound, func(c *mc.Ctx) {
-		qi := c.Free("svn1", len(svn1s))
-		ti, tag := build(c, qi, nil)
-		id := "tcb/" + tag + "/" + c.ID()
-		if !r.Want(id) {
-			return
+	for _, lvl := range []int{0, 2} {
+		world.SetLogLevel(lvl)
+		exName, exBound := "tcb-worlds", bound
+		if lvl != 0 {
+			exName, exBound = "tcb-worlds/log-level=2", 1
 		}
-		eval(id, qi, ti, c.Deviations() > 0)
-	})
+		r.Explore(exName, exBound, func(c *mc.Ctx) {
+			qi := c.Free("svn1", len(svn1s))
+			ti, tag := build(c, qi, nil)
+			id := "tcb/" + tag + "/" + c.ID() + world.LogTag()
+			if !r.Want(id) {
+				return
+			}
+			eval(id, qi, ti, c.Deviations() > 0)
+		})
+	}
+	world.SetLogLevel(0)
 	// full product of the first two levels (pattern x status) x module status class, for svn1 in {0, 3}
 	type prod struct{ qi, l1p, l1s, l2p, l2s, ms, dates int }
 	var prods []prod
